@@ -105,7 +105,7 @@ impl Instance {
             dir: dir.to_path_buf(),
             methods: Some(methods),
             rt,
-            timeout: Duration::from_secs(20),
+            timeout: Duration::from_secs(60),
             calls: 0,
             panics: 0,
             timeouts: 0,
